@@ -392,7 +392,7 @@ async fn run_ops(ops: Vec<Op>, policy: u8, spec_exec: Option<(usize, u64)>, sequ
     let mut out = CaseOut { results: HashMap::new(), frames: HashMap::new(), decisions: HashMap::new(), ret_seq: HashMap::new(), violations: vec![], build_error: None, hung: vec![] };
     // the profile in effect is, in two cases of three, one DERIVED from the configured one (to_builder on the
     // profile / pointee_to_builder on the handle): a derived profile keeps every setting it does not override
-    let handle = match ops.len() % 3 {
+    let handle = match ops.first().map(|o| o.op).unwrap_or(0) % 3 {
         0 => pb.build().into_handle(),
         1 => pb.build().to_builder().request_timeout(None).build().into_handle(),
         _ => pb.build().into_handle().pointee_to_builder().request_timeout(None).build().into_handle(),
